@@ -7,12 +7,17 @@ import Mathlib.Logic.Relation
 import Mathlib.Data.List.Forall2
 import Mathlib.Algebra.Order.Field.Basic
 import Mathlib.Algebra.BigOperators.Group.List.Basic
+import Mathlib.Algebra.Order.BigOperators.Group.List
+import Mathlib.Tactic.Ring
 import Mathlib.Tactic.Linarith
 
 set_option linter.unusedSectionVars false
 set_option linter.unusedSimpArgs false
 
 namespace CR
+
+deriving instance DecidableEq for Tr
+deriving instance DecidableEq for Except
 
 /-! ### `mapM` in `Except` over lists -/
 
@@ -277,8 +282,7 @@ theorem base_eq {g : Game α} (hg : Shape g) {strat : Array Strat} {reach : Arra
     | prob =>
       rw [ho] at h1
       simp only at h1 ⊢
-      rw [← prunePathsProb_ok h1]
-      rfl
+      exact prunePathsProb_ok h1
   · have hs' : g.owners.size ≤ s := by rw [← hg]; exact Nat.le_of_not_lt hs
     rw [condRow_of_ge hg _ _ hs', getD_of_ge _ _ _ (by rw [hsz, hg]; exact hs')]
 
@@ -296,6 +300,474 @@ theorem prunePaths_error_zeroDiv {owners : Array Owner} {reach : Array α}
     simp only at hs
     exact (prunePathsProb_error hs).1
 
---CONT
+/-! ### one round of `prune_states` -/
+
+/-- the `targets` list of `pruneStatesRound` -/
+def tgts (nodes : Array (List (Tr α))) : List Nat :=
+  0 :: (nodes.toList.flatMap (fun row => row.map (·.tgt)))
+
+/-- `isCleared` of `pruneStatesRound` -/
+def cleared (owners : Array Owner) (nodes : Array (List (Tr α))) (s : Nat) : Bool :=
+  (owners.getD s .prob != .p1) && !((tgts nodes).contains s)
+
+/-- `isDeadP1` of `pruneStatesRound` -/
+def deadP1 (owners : Array Owner) (nodes : Array (List (Tr α))) (s : Nat) : Bool :=
+  (owners.getD s .prob == .p1) && (nodes.getD s []).isEmpty && !((tgts nodes).contains s)
+
+theorem pruneStatesRound_eq (owners : Array Owner) (nodes : Array (List (Tr α))) :
+    pruneStatesRound owners nodes =
+      (nodes.mapIdx (fun s row => if cleared owners nodes s then [] else row),
+       (List.range nodes.size).filter (fun s => cleared owners nodes s || deadP1 owners nodes s)) :=
+  rfl
+
+theorem round_size (owners : Array Owner) (nodes : Array (List (Tr α))) :
+    (pruneStatesRound owners nodes).1.size = nodes.size := by
+  rw [pruneStatesRound_eq]; exact Array.size_mapIdx
+
+theorem round_getD (owners : Array Owner) (nodes : Array (List (Tr α))) (s : Nat) :
+    (pruneStatesRound owners nodes).1.getD s [] =
+      if cleared owners nodes s then [] else nodes.getD s [] := by
+  by_cases hs : s < nodes.size
+  · rw [getD_of_lt _ _ _ (by rw [round_size]; exact hs), getD_of_lt _ _ _ hs]
+    simp only [pruneStatesRound_eq]
+    rw [Array.getElem_mapIdx]
+  · have hs' : nodes.size ≤ s := Nat.le_of_not_lt hs
+    rw [getD_of_ge _ _ _ (by rw [round_size]; exact hs'), getD_of_ge _ _ _ hs']
+    simp
+
+theorem mem_tgts {nodes : Array (List (Tr α))} {s : Nat} :
+    s ∈ tgts nodes ↔ s = 0 ∨ ∃ u, ∃ t ∈ nodes.getD u [], t.tgt = s := by
+  unfold tgts
+  rw [List.mem_cons, List.mem_flatMap]
+  constructor
+  · rintro (h | ⟨row, hrow, hs⟩)
+    · exact Or.inl h
+    · right
+      rw [Array.mem_toList_iff] at hrow
+      obtain ⟨u, hu, rfl⟩ := Array.getElem_of_mem hrow
+      obtain ⟨t, ht, rfl⟩ := List.mem_map.mp hs
+      exact ⟨u, t, by rw [getD_of_lt _ _ _ hu]; exact ht, rfl⟩
+  · rintro (h | ⟨u, t, ht, rfl⟩)
+    · exact Or.inl h
+    · right
+      by_cases hu : u < nodes.size
+      · rw [getD_of_lt _ _ _ hu] at ht
+        exact ⟨nodes[u], by rw [Array.mem_toList_iff]; exact Array.getElem_mem hu,
+          List.mem_map.mpr ⟨t, ht, rfl⟩⟩
+      · rw [getD_of_ge _ _ _ (Nat.le_of_not_lt hu)] at ht
+        exact absurd ht List.not_mem_nil
+
+theorem cleared_iff {owners : Array Owner} {nodes : Array (List (Tr α))} {s : Nat} :
+    cleared owners nodes s = true ↔ owners.getD s .prob ≠ .p1 ∧ s ∉ tgts nodes := by
+  unfold cleared
+  simp
+
+theorem deadP1_iff {owners : Array Owner} {nodes : Array (List (Tr α))} {s : Nat} :
+    deadP1 owners nodes s = true ↔
+      owners.getD s .prob = .p1 ∧ nodes.getD s [] = [] ∧ s ∉ tgts nodes := by
+  unfold deadP1
+  simp [and_assoc]
+
+theorem tgts_round_subset {owners : Array Owner} {nodes : Array (List (Tr α))} {s : Nat}
+    (h : s ∈ tgts (pruneStatesRound owners nodes).1) : s ∈ tgts nodes := by
+  rw [mem_tgts] at h ⊢
+  rcases h with h | ⟨u, t, ht, hs⟩
+  · exact Or.inl h
+  · right
+    rw [round_getD] at ht
+    by_cases hc : cleared owners nodes u = true
+    · rw [if_pos hc] at ht; exact absurd ht List.not_mem_nil
+    · rw [if_neg hc] at ht; exact ⟨u, t, ht, hs⟩
+
+/-! ### the invariant of the `prune_states` loop -/
+
+/-- edge relation of the graph whose successor lists are given by `R` -/
+def RowEdge (R : Nat → List (Tr α)) (u v : Nat) : Prop := ∃ t ∈ R u, t.tgt = v
+
+/-- every row is either intact or it was emptied, is not Player 1's and is unreachable from 0 -/
+def Inv (R : Nat → List (Tr α)) (owners : Array Owner) (nodes : Array (List (Tr α))) : Prop :=
+  ∀ s, nodes.getD s [] = R s ∨
+    (nodes.getD s [] = [] ∧ owners.getD s .prob ≠ .p1 ∧
+      ¬ Relation.ReflTransGen (RowEdge R) 0 s)
+
+theorem round_inv {R : Nat → List (Tr α)} {owners : Array Owner} {nodes : Array (List (Tr α))}
+    (h : Inv R owners nodes) : Inv R owners (pruneStatesRound owners nodes).1 := by
+  intro s
+  rw [round_getD]
+  by_cases hc : cleared owners nodes s = true
+  · rw [if_pos hc]
+    obtain ⟨hown, hnot⟩ := cleared_iff.mp hc
+    right
+    refine ⟨rfl, hown, ?_⟩
+    intro hreach
+    rcases Relation.ReflTransGen.cases_tail hreach with h0 | ⟨u, hu, t, ht, hts⟩
+    · apply hnot; rw [mem_tgts]; exact Or.inl h0
+    · apply hnot
+      rw [mem_tgts]
+      right
+      rcases h u with hi | ⟨_, _, hnr⟩
+      · exact ⟨u, t, by rw [hi]; exact ht, hts⟩
+      · exact absurd hu hnr
+  · rw [if_neg hc]; exact h s
+
+theorem pruneStates_inv {R : Nat → List (Tr α)} {owners : Array Owner} :
+    ∀ (fuel : Nat) (prev : List Nat) (nodes out : Array (List (Tr α))),
+      Inv R owners nodes → pruneStates owners fuel prev nodes = .ok out →
+      Inv R owners out ∧ out.size = nodes.size := by
+  intro fuel
+  induction fuel with
+  | zero => intro prev nodes out _ h; exact absurd h (by simp [pruneStates])
+  | succ fuel ih =>
+    intro prev nodes out hinv h
+    unfold pruneStates at h
+    simp only at h
+    by_cases hs : sameSet (pruneStatesRound owners nodes).2 prev = true
+    · rw [if_pos hs] at h
+      rw [← Except.ok.inj h]
+      exact ⟨round_inv hinv, round_size _ _⟩
+    · rw [if_neg hs] at h
+      have := ih _ _ _ (round_inv hinv) h
+      exact ⟨this.1, this.2.trans (round_size _ _)⟩
+
+/-! ### `condition` -/
+
+/-- edge relation of the conditioned graph (before the clearing of unreachable states) -/
+def CondEdge (g : Game α) (strat : Array Strat) (reach : Array α) (u v : Nat) : Prop :=
+  ∃ t ∈ condRow g strat reach u, t.tgt = v
+
+theorem condition_true_eq (g : Game α) (strat : Array Strat) (reach : Array α) :
+    condition true g strat reach =
+      (prunePaths g.owners reach (pruneReachability g.owners strat g.tl) >>= fun nodes =>
+        pruneStates g.owners (g.owners.size + 2) [] nodes) := rfl
+
+theorem condition_false_eq (g : Game α) (strat : Array Strat) (reach : Array α) :
+    condition false g strat reach = .ok (pruneReachability g.owners strat g.tl) := rfl
+
+theorem condition_ok_split {g : Game α} {strat : Array Strat} {reach : Array α}
+    {nodes : Array (List (Tr α))} (h : condition true g strat reach = .ok nodes) :
+    ∃ base, prunePaths g.owners reach (pruneReachability g.owners strat g.tl) = .ok base ∧
+      pruneStates g.owners (g.owners.size + 2) [] base = .ok nodes := by
+  rw [condition_true_eq] at h
+  cases hb : prunePaths g.owners reach (pruneReachability g.owners strat g.tl) with
+  | error e => rw [hb] at h; exact absurd h (by simp [bind, Except.bind])
+  | ok base => rw [hb] at h; exact ⟨base, rfl, h⟩
+
+/-- the core of C03: size is kept, and each row is `condRow` or was emptied legitimately -/
+theorem condition_spec {g : Game α} (hg : Shape g) {strat : Array Strat} {reach : Array α}
+    {nodes : Array (List (Tr α))} (h : condition true g strat reach = .ok nodes) :
+    nodes.size = g.owners.size ∧ Inv (condRow g strat reach) g.owners nodes := by
+  obtain ⟨base, hb, hp⟩ := condition_ok_split h
+  obtain ⟨hsz, hrow⟩ := base_eq hg hb
+  have hinv : Inv (condRow g strat reach) g.owners base := fun s => Or.inl (hrow s)
+  obtain ⟨h1, h2⟩ := pruneStates_inv _ _ _ _ hinv hp
+  exact ⟨h2.trans hsz, h1⟩
+
+theorem dead_map_p (reach : Array α) (t : Tr α) (x : α) :
+    dead reach { t with p := x } = dead reach t := rfl
+
+/-- no transition of a `condRow` of a Player-1 or probabilistic state is dead -/
+theorem condRow_no_dead {g : Game α} {strat : Array Strat} {reach : Array α} {s : Nat}
+    (ho : g.owners.getD s .prob ≠ .p2) {t : Tr α} (ht : t ∈ condRow g strat reach s) :
+    dead reach t = false := by
+  unfold condRow at ht
+  cases hown : g.owners.getD s .prob with
+  | p2 => exact absurd hown ho
+  | p1 =>
+    rw [hown] at ht
+    simp only at ht
+    have := (List.mem_filter.mp ht).2
+    simpa using this
+  | prob =>
+    rw [hown] at ht
+    simp only at ht
+    by_cases hl : (List.filter (fun t => !dead reach t) (g.tl.getD s [])).length
+        = (g.tl.getD s []).length
+    · rw [if_pos hl] at ht
+      have hall := List.length_filter_eq_length_iff.mp hl
+      simpa using hall t ht
+    · rw [if_neg hl] at ht
+      obtain ⟨t', ht', rfl⟩ := List.mem_map.mp ht
+      have := (List.mem_filter.mp ht').2
+      rw [dead_map_p]
+      simpa using this
+
+theorem condRow_p2 {g : Game α} {strat : Array Strat} {reach : Array α} {s : Nat}
+    (ho : g.owners.getD s .prob = .p2) : condRow g strat reach s = g.tl.getD s [] := by
+  unfold condRow; rw [ho]
+
+theorem condRow_p1 {g : Game α} {strat : Array Strat} {reach : Array α} {s : Nat}
+    (ho : g.owners.getD s .prob = .p1) :
+    condRow g strat reach s =
+      ((g.tl.getD s []).filter (fun t => ((strat.getD s none).getD []).contains t.act)).filter
+        (fun t => !dead reach t) := by
+  unfold condRow; rw [ho]
+
+theorem condRow_prob {g : Game α} {strat : Array Strat} {reach : Array α} {s : Nat}
+    (ho : g.owners.getD s .prob = .prob) :
+    condRow g strat reach s = condProb reach (g.tl.getD s []) := by
+  unfold condRow; rw [ho]; rfl
+
+/-- a live transition (strategy-permitted, for Player 1) of the original row has a counterpart,
+same action and target, in `condRow` -/
+theorem condRow_keeps_live {g : Game α} {strat : Array Strat} {reach : Array α} {s : Nat}
+    {t : Tr α} (ht : t ∈ g.tl.getD s []) (hlive : dead reach t = false)
+    (hperm : g.owners.getD s .prob = .p1 →
+      ((strat.getD s none).getD []).contains t.act = true) :
+    ∃ t' ∈ condRow g strat reach s, t'.act = t.act ∧ t'.tgt = t.tgt := by
+  cases ho : g.owners.getD s .prob with
+  | p2 => rw [condRow_p2 ho]; exact ⟨t, ht, rfl, rfl⟩
+  | p1 =>
+    rw [condRow_p1 ho]
+    refine ⟨t, ?_, rfl, rfl⟩
+    rw [List.mem_filter, List.mem_filter]
+    exact ⟨⟨ht, hperm ho⟩, by rw [hlive]; rfl⟩
+  | prob =>
+    rw [condRow_prob ho]
+    unfold condProb
+    by_cases hl : (List.filter (fun t => !dead reach t) (g.tl.getD s [])).length
+        = (g.tl.getD s []).length
+    · rw [if_pos hl]; exact ⟨t, ht, rfl, rfl⟩
+    · rw [if_neg hl]
+      refine ⟨_, List.mem_map.mpr ⟨t, ?_, rfl⟩, rfl, rfl⟩
+      rw [List.mem_filter]
+      exact ⟨ht, by rw [hlive]; rfl⟩
+
+/-! ### termination of the `prune_states` loop within the fuel -/
+
+theorem mem_round_set {owners : Array Owner} {nodes : Array (List (Tr α))} {s : Nat} :
+    s ∈ (pruneStatesRound owners nodes).2 ↔
+      s < nodes.size ∧ (cleared owners nodes s = true ∨ deadP1 owners nodes s = true) := by
+  rw [pruneStatesRound_eq]
+  simp only [List.mem_filter, List.mem_range, Bool.or_eq_true]
+
+/-- the set of cleared / dead states only grows from one round to the next -/
+theorem round_set_mono {owners : Array Owner} {nodes : Array (List (Tr α))} {s : Nat}
+    (h : s ∈ (pruneStatesRound owners nodes).2) :
+    s ∈ (pruneStatesRound owners (pruneStatesRound owners nodes).1).2 := by
+  rw [mem_round_set] at h ⊢
+  obtain ⟨hs, hc⟩ := h
+  refine ⟨by rw [round_size]; exact hs, ?_⟩
+  rcases hc with hc | hd
+  · left
+    obtain ⟨ho, ht⟩ := cleared_iff.mp hc
+    exact cleared_iff.mpr ⟨ho, fun h' => ht (tgts_round_subset h')⟩
+  · right
+    obtain ⟨ho, he, ht⟩ := deadP1_iff.mp hd
+    refine deadP1_iff.mpr ⟨ho, ?_, fun h' => ht (tgts_round_subset h')⟩
+    rw [round_getD]
+    by_cases hc : cleared owners nodes s = true
+    · rw [if_pos hc]
+    · rw [if_neg hc]; exact he
+
+theorem filter_length_lt {l : List Nat} {p q : Nat → Bool} (hpq : ∀ x, p x = true → q x = true)
+    {x : Nat} (hx : x ∈ l) (hqx : q x = true) (hpx : p x = false) :
+    (l.filter p).length < (l.filter q).length := by
+  induction l with
+  | nil => exact absurd hx List.not_mem_nil
+  | cons a l ih =>
+    have hle : (l.filter p).length ≤ (l.filter q).length := by
+      rw [← List.countP_eq_length_filter, ← List.countP_eq_length_filter]
+      exact List.countP_mono_left (fun y _ => hpq y)
+    rcases List.mem_cons.mp hx with rfl | hx'
+    · rw [List.filter_cons_of_pos hqx, List.filter_cons_of_neg (by simp [hpx])]
+      simp only [List.length_cons]
+      omega
+    · have := ih hx'
+      by_cases hpa : p a = true
+      · rw [List.filter_cons_of_pos hpa, List.filter_cons_of_pos (hpq a hpa)]
+        simp only [List.length_cons]; omega
+      · rw [List.filter_cons_of_neg hpa]
+        by_cases hqa : q a = true
+        · rw [List.filter_cons_of_pos hqa]; simp only [List.length_cons]; omega
+        · rw [List.filter_cons_of_neg hqa]; exact this
+
+theorem not_sameSet {a b : List Nat} (hba : ∀ s ∈ b, s ∈ a) (h : ¬ sameSet a b = true) :
+    ∃ s ∈ a, s ∉ b := by
+  unfold sameSet at h
+  by_contra hcon
+  apply h
+  rw [Bool.and_eq_true, List.all_eq_true, List.all_eq_true]
+  constructor
+  · intro s hs
+    rw [List.contains_iff_mem]
+    by_contra hsb
+    exact hcon ⟨s, hs, hsb⟩
+  · intro s hs
+    rw [List.contains_iff_mem]
+    exact hba s hs
+
+theorem pruneStates_total {owners : Array Owner} :
+    ∀ (fuel : Nat) (prev : List Nat) (nodes : Array (List (Tr α))),
+      (∀ s ∈ prev, s ∈ (pruneStatesRound owners nodes).2) →
+      ((List.range nodes.size).filter (fun s => !prev.contains s)).length < fuel →
+      ∃ out, pruneStates owners fuel prev nodes = .ok out := by
+  intro fuel
+  induction fuel with
+  | zero => intro prev nodes _ h; exact absurd h (Nat.not_lt_zero _)
+  | succ fuel ih =>
+    intro prev nodes hsub hlt
+    unfold pruneStates
+    simp only
+    by_cases hs : sameSet (pruneStatesRound owners nodes).2 prev = true
+    · rw [if_pos hs]; exact ⟨_, rfl⟩
+    · rw [if_neg hs]
+      apply ih
+      · intro s hs'; exact round_set_mono hs'
+      · obtain ⟨x, hx, hxp⟩ := not_sameSet hsub hs
+        rw [round_size]
+        have hxlt : x < nodes.size := (mem_round_set.mp hx).1
+        have : ((List.range nodes.size).filter
+              (fun s => !(pruneStatesRound owners nodes).2.contains s)).length
+            < ((List.range nodes.size).filter (fun s => !prev.contains s)).length := by
+          apply filter_length_lt (x := x)
+          · intro y hy
+            have hy' : y ∉ (pruneStatesRound owners nodes).2 := by simpa using hy
+            have : y ∉ prev := fun hyp => hy' (hsub y hyp)
+            simpa using this
+          · exact List.mem_range.mpr hxlt
+          · simpa using hxp
+          · simpa using hx
+        omega
+
+theorem pruneStates_total_init (owners : Array Owner) (nodes : Array (List (Tr α))) :
+    ∃ out, pruneStates owners (nodes.size + 2) [] nodes = .ok out := by
+  apply pruneStates_total
+  · intro s hs; exact absurd hs List.not_mem_nil
+  · have : ((List.range nodes.size).filter (fun s => !([] : List Nat).contains s)).length
+        ≤ (List.range nodes.size).length := List.length_filter_le _ _
+    rw [List.length_range] at this
+    omega
+
+/-- `condition true` succeeds as soon as `prune_paths` does: `prune_states` never runs out of
+fuel `n + 2` -/
+theorem condition_total_of_prunePaths {g : Game α} (hg : Shape g) {strat : Array Strat}
+    {reach : Array α} {base : Array (List (Tr α))}
+    (hb : prunePaths g.owners reach (pruneReachability g.owners strat g.tl) = .ok base) :
+    ∃ nodes, condition true g strat reach = .ok nodes := by
+  rw [condition_true_eq, hb]
+  have hsz : base.size = g.owners.size := (base_eq hg hb).1
+  rw [← hsz]
+  exact pruneStates_total_init g.owners base
+
 end
+
+/-! ### probabilistic rows over an ordered field -/
+
+section OrderedField
+variable {K : Type} [Field K] [LinearOrder K] [IsStrictOrderedRing K]
+
+theorem foldl_add_eq_sum (l : List K) (a : K) : l.foldl (· + ·) a = a + l.sum := by
+  induction l generalizing a with
+  | nil => simp
+  | cons x l ih => rw [List.foldl_cons, ih, List.sum_cons, add_assoc]
+
+theorem removedMass_eq_sum (reach : Array K) (row : List (Tr K)) :
+    removedMass reach row = ((row.filter (dead reach)).map (·.p)).sum := by
+  unfold removedMass
+  rw [foldl_add_eq_sum, zero_add]
+
+theorem sum_filter_split (q : Tr K → Bool) (row : List (Tr K)) :
+    (row.map (·.p)).sum =
+      ((row.filter q).map (·.p)).sum + ((row.filter (fun t => !q t)).map (·.p)).sum := by
+  induction row with
+  | nil => simp
+  | cons t r ih =>
+    by_cases h : q t = true
+    · rw [List.filter_cons_of_pos h, List.filter_cons_of_neg (by simp [h])]
+      simp only [List.map_cons, List.sum_cons]
+      rw [ih]; ring
+    · rw [List.filter_cons_of_neg h, List.filter_cons_of_pos (by simpa using h)]
+      simp only [List.map_cons, List.sum_cons]
+      rw [ih]; ring
+
+/-- the renormalisation constant `1 - removed` is the total surviving probability -/
+theorem one_sub_removedMass (reach : Array K) {row : List (Tr K)}
+    (hsum : (row.map (·.p)).sum = 1) :
+    1 - removedMass reach row = ((row.filter (fun t => !dead reach t)).map (·.p)).sum := by
+  rw [removedMass_eq_sum, ← hsum, sum_filter_split (dead reach) row]
+  ring
+
+theorem live_sum_pos (reach : Array K) {row : List (Tr K)} (hpos : ∀ t ∈ row, 0 < t.p)
+    (hne : row.filter (fun t => !dead reach t) ≠ []) :
+    0 < ((row.filter (fun t => !dead reach t)).map (·.p)).sum := by
+  apply List.sum_pos
+  · intro x hx
+    obtain ⟨t, ht, rfl⟩ := List.mem_map.mp hx
+    exact hpos t (List.mem_filter.mp ht).1
+  · intro h; exact hne (List.map_eq_nil_iff.mp h)
+
+theorem sum_map_div (l : List (Tr K)) (c : K) :
+    (l.map (fun t => t.p / c)).sum = (l.map (·.p)).sum / c := by
+  induction l with
+  | nil => simp
+  | cons t l ih => simp only [List.map_cons, List.sum_cons, ih, add_div]
+
+/-- the conditioned probabilistic row: survivors in place, original probability divided by the
+total surviving probability -/
+theorem condProb_field (reach : Array K) {row : List (Tr K)}
+    (hsum : (row.map (·.p)).sum = 1) :
+    condProb reach row =
+      (row.filter (fun t => !dead reach t)).map (fun t =>
+        { t with p := t.p / ((row.filter (fun t => !dead reach t)).map (·.p)).sum }) := by
+  by_cases hl : (row.filter (fun t => !dead reach t)).length = row.length
+  · rw [condProb_of_eq hl]
+    have hfe : row.filter (fun t => !dead reach t) = row :=
+      List.filter_eq_self.mpr (List.length_filter_eq_length_iff.mp hl)
+    rw [hfe, hsum]
+    have : (fun t : Tr K => ({ t with p := t.p / 1 } : Tr K)) = id := by
+      funext t; cases t; simp
+    rw [this, List.map_id]
+  · unfold condProb
+    rw [if_neg hl, one_sub_removedMass reach hsum]
+
+theorem condProb_sum_one (reach : Array K) {row : List (Tr K)} (hpos : ∀ t ∈ row, 0 < t.p)
+    (hsum : (row.map (·.p)).sum = 1) (hne : row.filter (fun t => !dead reach t) ≠ []) :
+    ((condProb reach row).map (·.p)).sum = 1 := by
+  rw [condProb_field reach hsum, List.map_map]
+  have := live_sum_pos reach hpos hne
+  show ((row.filter (fun t => !dead reach t)).map (fun t => t.p / _)).sum = 1
+  rw [sum_map_div]
+  exact div_self (ne_of_gt this)
+
+theorem prunePathsProb_field (reach : Array K) {row : List (Tr K)} (hpos : ∀ t ∈ row, 0 < t.p)
+    (hsum : (row.map (·.p)).sum = 1) :
+    prunePathsProb reach row = .ok (condProb reach row) := by
+  cases h : prunePathsProb reach row with
+  | ok out => rw [prunePathsProb_ok h]
+  | error e =>
+    exfalso
+    obtain ⟨_, _, hne, hz⟩ := prunePathsProb_error h
+    have hne' : row.filter (fun t => !dead reach t) ≠ [] := by
+      intro h0; rw [h0] at hne; simp at hne
+    have := live_sum_pos reach hpos hne'
+    rw [beq_iff_eq, one_sub_removedMass reach hsum] at hz
+    exact absurd hz (ne_of_gt this)
+
+/-- hypothesis of D/E on a game: every probabilistic row is a positive distribution -/
+def ProbRowsOK (g : Game K) : Prop :=
+  ∀ s, s < g.owners.size → g.owners.getD s .prob = .prob →
+    (∀ t ∈ g.tl.getD s [], 0 < t.p) ∧ ((g.tl.getD s []).map (·.p)).sum = 1
+
+theorem prunePaths_field {g : Game K} (hg : Shape g) (hrows : ProbRowsOK g)
+    (strat : Array Strat) (reach : Array K) :
+    ∃ base, prunePaths g.owners reach (pruneReachability g.owners strat g.tl) = .ok base := by
+  cases h : prunePaths g.owners reach (pruneReachability g.owners strat g.tl) with
+  | ok base => exact ⟨base, rfl⟩
+  | error e =>
+    exfalso
+    obtain ⟨s, hs, he⟩ := prunePaths_error h
+    rw [pruneReachability_size, hg] at hs
+    unfold pruneRow at he
+    rw [pruneReachability_getD] at he
+    cases ho : g.owners.getD s .prob with
+    | p1 => rw [ho] at he; exact absurd he (by simp)
+    | p2 => rw [ho] at he; exact absurd he (by simp)
+    | prob =>
+      rw [ho] at he
+      simp only at he
+      obtain ⟨hpos, hsum⟩ := hrows s hs ho
+      rw [prunePathsProb_field reach hpos hsum] at he
+      exact absurd he (by simp)
+
+end OrderedField
 end CR
